@@ -386,11 +386,15 @@ CHECKS["C08"] = {
          "shards": {"quick": ["mainnet=0;txevents=0,1", "mainnet=1;txevents=0,1", "mainnet=0;txevents=2;failAt=0", "mainnet=1;txevents=2;failAt=0", "mainnet=1;txevents=2;failAt=1,2,3,4,5;cl=1"],
                     "thorough": ["mainnet=%d;txevents=%s" % (m, t) for m in (0, 1) for t in ("0,1", "2")]},
          "timeout": {"quick": 2400, "thorough": 30000}},
+        # "the polling path forwards each fetched event at most once": the fetch loop against a growing log (shared with C09)
+        {"pkg": "./pkg/alephium", "entry": "VerifC09_Fetch", "reach": ["delivered", "end"], "opts": _ALPH_OPTS,
+         "shards": {"quick": ["logsize=1;emptyPayload=0", "logsize=2;mc=0;kind=0;emptyPayload=0"]}},
         {"pkg": "./pkg/alephium", "entry": "VerifC08_Attest", "reach": ["attestation-kept", "attestation-dropped"], "opts": _ALPH_OPTS,
          "shards": {"quick": ["plen=99,101", "plen=100;alphToken=1"] + ["plen=100;alphToken=0;path=%d;cdec=%s" % (pa, c) for pa in (0, 1) for c in ("8", "0,18", "255,256")]}},
     ],
     "bounds": {"quick": {"attestation": "one attestation event on the polling path (handleUnconfirmedEvents) or the re-observation path (getGovernanceEventsByTxId): payload length 99/100/101, token chain id, decimals byte, 4 symbol bytes and 2 name bytes symbolic, ALPH token or a token contract in a symbolic group; the token contract reports 4 symbolic symbol bytes, 2 symbolic name bytes and one of the decimals numerals 0, 8, 18, 255, 256",
                          "predicate": "isEventConfirmed for every height/timestamp/clock/consistency level/network/payload kind (heights < 2^30, times < 2^52 ms)",
+                         "fetch": "the fetch loop with a log of 1..2 bridge events that grows at arbitrary calls, page size 1..3 (each event handed on at most once)",
                          "polling": "one batch of 1..2 events in two blocks (consistency level, payload kind symbolic; bridge or foreign caller) and 1..2 height ticks (mainnet: two events with one tick, one event with two ticks); per tick: arbitrary chain height, arbitrary canonicity of each block (reorg out and back in), arbitrary non-decreasing clock, optional node API failure",
                          "re-observation": "one request; node answers: tx confirmed or pending, 0..2 events each {governance contract | other contract, event index 0|1, bridge | foreign caller, transfer | other payload, consistency level 0|1|10}, symbolic block height/timestamp/current height, canonical or orphaned, failure of any one of the five node calls"},
                "thorough": {"polling": "up to 3 events and 3 ticks"}},
